@@ -32,6 +32,10 @@ type scheduler struct {
 	i       int
 	stop    chan struct{}
 	order   []int // connection ids in release order
+	// slow target: the release with this index (0-based) is held back for slowFor (longer than the tool's
+	// one-second progress tick), so that the whole file has been read while entries are still unwritten
+	slowAt  int
+	slowFor time.Duration
 }
 
 func newScheduler(script []int) *scheduler {
@@ -80,6 +84,15 @@ func (s *scheduler) run(workers int, open func() int) {
 				pick = ids[s.script[s.i%len(s.script)]%len(ids)]
 				s.i++
 			}
+			if s.slowFor > 0 && len(s.order) == s.slowAt {
+				s.mu.Unlock()
+				select {
+				case <-time.After(s.slowFor):
+				case <-s.stop:
+					return
+				}
+				s.mu.Lock()
+			}
 			close(s.pending[pick])
 			delete(s.pending, pick)
 			s.order = append(s.order, pick)
@@ -105,10 +118,14 @@ type c07Case struct {
 	schedule []int
 	failKey  string // "db/key": the target answers this key's RESTORE with an error
 	failMsg  string
+	tk       targetKind // target version: decides whether RESTORE ... REPLACE is used (target.replace)
+	slow     bool       // the target holds back its slowAt-th reply for slowFor (default 1.25 s)
+	slowAt   int
+	slowFor  time.Duration
 }
 
 func (c *c07Case) String() string {
-	return fmt.Sprintf("mode=%s parallel=%d target.db=%d key_exists=%s bigRoute=%v filters=%+v records=%d dbs=%d existing=%d failKey=%q failMsg=%q", c.mode, c.parallel, c.targetDB, c.policy, c.bigRoute, c.filt, len(c.file.Records), c.file.NDBs, len(c.existing), c.failKey, c.failMsg)
+	return fmt.Sprintf("mode=%s parallel=%d target=%s(replace=%v) target.db=%d key_exists=%s bigRoute=%v filters=%+v records=%d dbs=%d existing=%d failKey=%q failMsg=%q slow=%v/%d", c.mode, c.parallel, c.tk.version, targetReplaceRule(c.tk.version), c.targetDB, c.policy, c.bigRoute, c.filt, len(c.file.Records), c.file.NDBs, len(c.existing), c.failKey, c.failMsg, c.slow, c.slowAt)
 }
 
 func drawC07(t *rapid.T) *c07Case {
@@ -144,6 +161,11 @@ func drawC07(t *rapid.T) *c07Case {
 		}
 	}
 	c.schedule = rapid.SliceOfN(rapid.IntRange(0, 7), 1, 24).Draw(t, "schedule")
+	// 5.x: RESTORE ... REPLACE; 6.x: the tool's rule turns REPLACE off, rewrite becomes DEL + RESTORE
+	c.tk = rapid.SampledFrom([]targetKind{targetKinds[3], targetKinds[3], targetKinds[5]}).Draw(t, "target")
+	if rapid.IntRange(0, 79).Draw(t, "slowTarget") == 41 { // rare (rapid favours the bounds of a range, so the rare value sits in the middle)
+		c.slow, c.slowAt = true, rapid.IntRange(0, 4).Draw(t, "slowAt")
+	}
 	return c
 }
 
@@ -174,20 +196,32 @@ func (c *c07Case) pass(r gen.Record) bool {
 
 func c07Run(t *rapid.T) { c07Check(t, drawC07(t)) }
 
+// c07Slow: every case has a slow target (one reply held back past the tool's one-second progress tick):
+// the run must still not return before everything it read has been written.
+func c07Slow(t *rapid.T) {
+	c := drawC07(t)
+	c.slow, c.slowAt, c.slowFor = true, rapid.IntRange(0, 3).Draw(t, "slowAt"), 2300*time.Millisecond // spans two progress ticks
+	c07Check(t, c)
+}
+
 func c07Check(t fataler, c *c07Case) {
 	o := &conf.Options
 	c.filt.apply()
 	o.Parallel, o.TargetDB, o.KeyExists = c.parallel, c.targetDB, c.policy
-	o.TargetVersion, o.TargetReplace, o.BigKeyThreshold = "5.0.7", true, 500*1024*1024
+	if c.tk.version == "" {
+		c.tk = targetKinds[3]
+	}
+	o.TargetVersion, o.TargetReplace, o.BigKeyThreshold = c.tk.version, targetReplaceRule(c.tk.version), 500*1024*1024
 	if c.bigRoute {
 		o.BigKeyThreshold = 1
 	}
 	defer func() {
 		resetFilters()
 		o.Parallel, o.TargetDB, o.KeyExists, o.BigKeyThreshold = 1, -1, "none", 500*1024*1024
+		o.TargetVersion, o.TargetReplace = "5.0.7", true
 	}()
 	defer quietLog()()
-	srv := newTarget(targetKinds[3])
+	srv := newTarget(c.tk)
 	defer srv.Close()
 	sentinel := gen.Value{Kind: "string", Str: []byte("pre-existing value")}
 	for k := range c.existing {
@@ -215,6 +249,12 @@ func c07Check(t fataler, c *c07Case) {
 		}
 	}
 	sch := newScheduler(c.schedule)
+	if c.slow {
+		sch.slowAt, sch.slowFor = c.slowAt, 1250*time.Millisecond
+		if c.slowFor > 0 {
+			sch.slowFor = c.slowFor
+		}
+	}
 	srv.Gate = sch.gate
 	go sch.run(c.parallel, srv.NumConns)
 	defer close(sch.stop)
@@ -391,11 +431,17 @@ func c07Check(t fataler, c *c07Case) {
 		}
 	}
 	nt := c.parallel >= 2 && len(dbsUsed) >= 3 && len(conns) >= 2
-	stats.C.Case(nt, stats.HashS(desc+fmt.Sprint(c.schedule, sch.order)), "mode:"+c.mode, fmt.Sprintf("parallel=%d", c.parallel), fmt.Sprintf("conns-used=%d", len(conns)))
+	cls := []string{"mode:" + c.mode, fmt.Sprintf("parallel=%d", c.parallel), fmt.Sprintf("conns-used=%d", len(conns)), "target:" + c.tk.version}
+	if c.slow && len(sch.order) > c.slowAt {
+		cls = append(cls, "slow-target:"+c.mode)
+	}
+	stats.C.Case(nt, stats.HashS(desc+fmt.Sprint(c.schedule, sch.order)), cls...)
 	if nt && len(c.file.Records) < 12 {
 		stats.C.Sample(fmt.Sprintf("%s schedule=%v release-order=%v", desc, c.schedule, sch.order))
 	}
 }
+
+func TestC07Slow(t *testing.T) { rapid.Check(t, c07Slow) }
 
 func TestC07(t *testing.T) { rapid.Check(t, c07Run) }
 
